@@ -45,9 +45,7 @@ func (n *node[T]) buildIndexes() {
 		return
 	}
 
-	if n.indexes == nil {
-		n.indexes = make(map[byte]int, indexesSize)
-	}
+	n.indexes = make(map[byte]int, indexesSize) // 重新生成，不保留已经被删除的子节点的索引
 
 	for index, node := range n.children {
 		if node.segment.Type == syntax.String {
@@ -160,6 +158,7 @@ func (n *node[T]) find(pattern string) *node[T] {
 func (n *node[T]) clean(prefix string) {
 	if len(prefix) == 0 {
 		n.children = n.children[:0]
+		n.indexes = nil
 		return
 	}
 
